@@ -151,6 +151,23 @@ impl Shape {
         }
     }
 
+    /// the hit test through the `ContainsPoint` trait (a generic caller's route; `Rectangle` also has an inherent
+    /// `contains`, which is what `contains()` above resolves to)
+    pub fn contains_via_trait(&self, p: Point) -> bool {
+        fn via<S: embedded_graphics::primitives::ContainsPoint>(s: &S, p: Point) -> bool {
+            s.contains(p)
+        }
+        match self {
+            Shape::Rect(s) => via(s, p),
+            Shape::Circle(s) => via(s, p),
+            Shape::Ellipse(s) => via(s, p),
+            Shape::RRect(s) => via(s, p),
+            Shape::Triangle(s) => via(s, p),
+            Shape::Sector(s, ..) => via(s, p),
+            _ => panic!("no contains()"),
+        }
+    }
+
     /// `points()` pulled with a step budget; returns (points, exhausted)
     pub fn points(&self, budget: usize) -> (Vec<Point>, bool) {
         match self {
